@@ -167,6 +167,26 @@ m("c18_wrap_extra", "C18", r"C18\.WRAP:tera::Tera::render_str", "render_str post
         Ok(String::from_utf8(output)?)""", """        self.render_str_to(input, context, autoescape, &mut output)?;
         output.extend_from_slice(b"");
         Ok(String::from_utf8(output)?)""")
+# ---------------------------------------------------------------- C10
+m("c10_commit_early", "C10", r"C10\.COMMIT:", "components map committed before the error check",
+  "tera/src/tera.rs", """        if !errors.is_empty() {
+            // Sort by template name, then by position in source""", """        self.components = components.clone();
+        if !errors.is_empty() {
+            // Sort by template name, then by position in source""")
+m("c10_undo_norev", "C10", r"C10\.UNDO:tera::Tera::add_raw_templates:undo-branch", "undo list walked forward",
+  "tera/src/tera.rs", """            // Undo in reverse so duplicate names within the batch restore correctly.
+            for (key, previous) in inserted.into_iter().rev() {""", """            // Undo in reverse so duplicate names within the batch restore correctly.
+            for (key, previous) in inserted.into_iter() {""")
+m("c10_derived_cache", "C10", r"C10\.DERIVED:read:Template\.parents", "finalize reuses parents computed by a previous registration",
+  "tera/src/tera.rs", "            let parents = find_parents(self, tpl, tpl, vec![])?;",
+  "            let parents = if tpl.parents.is_empty() { find_parents(self, tpl, tpl, vec![])? } else { tpl.parents.clone() };")
+m("c10_mut_remove", "C10", r"C10\.MUT:mutator-set", "a remove_template API that skips finalize",
+  "tera/src/tera.rs", """    fn get_template_priority(&self, name: &str) -> usize {""", """    /// Removes a template
+    pub fn remove_template(&mut self, name: &str) -> bool {
+        self.templates.remove(name).is_some()
+    }
+
+    fn get_template_priority(&self, name: &str) -> usize {""")
 
 
 def apply(src, old, new, count, name):
